@@ -12,11 +12,18 @@ The theorems are about `NV.AddrParse.ipAddress` / `intToStr` / `intToStr6` (Mode
 i.e. `IPAddress.__init__` for strings and `strategy.ipv4/ipv6.int_to_str`, over the modelled
 platform functions (Model/Text4, Text6) and the model of `netaddr/fbsocket.py` (Model/FbSocket).
 Helper lemmas live in Lemmas/C01L*.lean.
+
+Strict IPv6 = RFC 4291 is proved in full (`strict6_iff`, `strict6_api`): the independent grammar
+predicate `C01G.Rfc4291` is in Lemmas/C01LGrammar.lean, the equivalence with the split-style
+platform model in Lemmas/C01LGrammar2.lean / C01LGrammar3.lean (`pton6_iff_rfc4291`), and the
+fallback reader equals the platform model on all strings (`fallback_eq_platform_parse`).
+No `_partial` theorem is left in this file.
 -/
 import NetaddrVerif.Lemmas.C01LText6
 import NetaddrVerif.Lemmas.C01LStrict
 import NetaddrVerif.Lemmas.C01LAton
 import NetaddrVerif.Lemmas.C01LStrict6
+import NetaddrVerif.Lemmas.C01LGrammar3
 import NetaddrVerif.Lemmas.C03LInt
 namespace NV.C01
 open NV NV.Text4 NV.AddrParse NV.C01L
@@ -262,22 +269,105 @@ theorem valid_iff (be : Backend) (s : List Char) (fl : Nat) (hs : s ≠ []) (hns
     | some v => simp
     | none => simp
 
-/-- PARTIAL.  Full statement aimed at (DESIGN.md C01, `strict6_iff`):
-    `inetPton6 be s = some v ↔ Rfc4291 s v`, where `Rfc4291` is an independent decidable grammar
-    predicate (1-4 hex digits per group, at most one "::" standing for ≥ 1 group, optional strict
-    dotted quad in the last 32 bits, eight groups' worth).
-    Proved here: (a) soundness direction on everything the printers emit — each of the three
-    dialect texts of every 128-bit value is accepted with that value by both back ends;
-    (b) the fallback reader equals the platform model on ALL strings (`fallback_eq_platform_parse`).
-    (c) necessary conditions for acceptance: `strict6_necessary` (pieces are empty / 1-4 hex
-    digits / canonical dotted quad; character set), `strict6_rejects_foreign`.
-    Missing: the independent grammar predicate and the full equivalence of the split-style model
-    with it — i.e. the exact placement rules of the empty pieces and the group count (the
-    split-style model is itself close to a grammar; the harness oracle compares both the real code
-    and the platform with an independently written RFC 4291 recogniser on every run). -/
-theorem strict6_iff_partial (be : Backend) (d : Dialect) (v : Nat) (hv : v < 2 ^ 128) :
-    inetPton6 be (intToStr6 be d v) = some v ∧ inetPton6 .fallback (intToStr6 be d v) = inetPton6 .platform (intToStr6 be d v) :=
-  ⟨text6_parse be d v hv, fb_pton6_eq _⟩
+/-- **Strict IPv6 = RFC 4291.**  `inet_pton(AF_INET6, ·)` of either back end (the platform model
+    and the model of `netaddr/fbsocket.py`) accepts exactly the strings of the independent
+    declarative grammar `C01G.Rfc4291` (Lemmas/C01LGrammar.lean: groups of 1-4 hex digits joined
+    by ':', at most one "::" standing for one or more zero groups, optional strict dotted quad
+    as the last 32 bits, eight groups' worth), each with the value the grammar gives it. -/
+theorem strict6_iff (be : Backend) (s : List Char) (v : Nat) : inetPton6 be s = some v ↔ C01G.Rfc4291 s v := by
+  rw [inetPton6_eq]; exact C01G.pton6_iff_rfc4291 s v
+
+example : inetPton6 .fallback "2001:db8::8:800:200C:417A".toList = some 0x20010db80000000000080800200C417A := by decide
+
+/-- the same for the model of `fbsocket.inet_pton` itself -/
+theorem strict6_iff_fallback (s : List Char) (v : Nat) : FbSocket.pton6 s = some v ↔ C01G.Rfc4291 s v :=
+  strict6_iff .fallback s v
+
+/-- the grammar is unambiguous: a string denotes at most one address -/
+theorem rfc4291_functional (s : List Char) (v v' : Nat) (h : C01G.Rfc4291 s v) (h' : C01G.Rfc4291 s v') : v = v' :=
+  C01G.rfc4291_functional s v v' h h'
+
+/-- Strings outside RFC 4291 (negative examples for the grammar, via the equivalence): two
+    "::", ":::", seven or nine groups, eight groups plus "::", a single leading or trailing ':',
+    a five-digit group, a dotted quad that is not last / has a leading zero / three parts / an
+    octet above 255 / makes nine groups' worth, foreign characters, zone and prefix suffixes,
+    the empty string. -/
+example : ∀ s ∈ ["1::2::3", ":::", "1:2:3:4:5:6:7", "1:2:3:4:5:6:7:8:9", "1:2:3:4:5:6:7::8", "::1:2:3:4:5:6:7:8",
+      ":1:2:3:4:5:6:7:8", ":1::2", "1:2:3:4:5:6:7:8:", "1::2:", "12345::", "1.2.3.4::", "::1.2.3.4:5",
+      "::1.2.3.04", "::1.2.3", "::256.1.1.1", "1:2:3:4:5:6:7:1.2.3.4", "1:2:3:4:5:1.2.3.4", "::g", " ::1", "::1 ",
+      "::1%eth0", "::1/64", "::0x1", "", ":", "1", "1.2.3.4", "::-1", "::1_0"],
+    ¬ ∃ v, C01G.Rfc4291 (String.toList s) v := by
+  intro s hs
+  apply C01G.rfc4291_reject
+  revert s
+  decide
+
+/-- **Strict IPv6 at the constructor.**  `IPAddress(s, 6, flags)` and `IPAddress(s, flags=flags)`
+    yield the IPv6 address `v` exactly when `s` is an RFC 4291 text denoting `v` — for every flags
+    value (IPv6 parsing is always strict) and both back ends. -/
+theorem strict6_api (be : Backend) (s : List Char) (v : Nat) (fl : Nat) :
+    (ipAddress be s (some 6) fl = .ok ⟨6, v⟩ ↔ C01G.Rfc4291 s v) ∧
+    (ipAddress be s none fl = .ok ⟨6, v⟩ ↔ C01G.Rfc4291 s v) := by
+  have hv6 : ¬ ((6 : Nat) ≠ 4 ∧ (6 : Nat) ≠ 6) := by decide
+  have h64 : ¬ ((6 : Nat) = 4) := by decide
+  have hslash : C01G.Rfc4291 s v → s.contains '/' = false := by
+    intro h
+    have h6 := (strict6_iff be s v).mpr h
+    rw [inetPton6_eq] at h6
+    apply contains_false_of_not_mem
+    intro hm
+    rcases pton6_charset s v h6 '/' hm with e | e | e
+    · revert e; decide
+    · revert e; decide
+    · revert e; decide
+  constructor
+  · constructor
+    · intro h
+      unfold ipAddress at h
+      simp only [hv6, if_false, strToInt, h64, strToInt6] at h
+      split at h
+      · cases h
+      · cases h6 : inetPton6 be s with
+        | none => simp [h6] at h
+        | some w =>
+          simp only [h6, Except.ok.injEq, Addr.mk.injEq, true_and] at h
+          subst h
+          exact (strict6_iff be s w).mp h6
+    · intro h
+      have h6 := (strict6_iff be s v).mpr h
+      unfold ipAddress
+      simp only [hv6, if_false, strToInt, h64, strToInt6, hslash h, Bool.false_eq_true, h6]
+  · constructor
+    · intro h
+      unfold ipAddress at h
+      simp only at h
+      split at h
+      · cases h
+      · cases h4 : strToInt4 be s fl with
+        | ok w => simp [h4] at h
+        | error e4 =>
+          simp only [h4, strToInt6] at h
+          cases h6 : inetPton6 be s with
+          | none => simp [h6] at h
+          | some w =>
+            simp only [h6, Except.ok.injEq, Addr.mk.injEq, true_and] at h
+            subst h
+            exact (strict6_iff be s w).mp h6
+    · intro h
+      have h6 := (strict6_iff be s v).mpr h
+      obtain ⟨pre, r, he, hpre⟩ := C01G.rfc4291_shape s v h
+      have h4 := strToInt4_colon be pre r hpre fl
+      rw [← he] at h4
+      unfold ipAddress
+      simp only [hslash h, Bool.false_eq_true, if_false, h4, strToInt6, h6]
+
+example : ipAddress .fallback "::FFFF:129.144.52.38".toList none 0 = .ok ⟨6, 0xFFFF81903426⟩ :=
+  (strict6_api .fallback _ _ 0).2.mpr ((strict6_iff .fallback _ _).mp (by decide))
+
+/-- every printed form (each dialect, each back end) is an RFC 4291 text of the value printed -/
+theorem printed_is_rfc4291 (be : Backend) (d : Dialect) (v : Nat) (hv : v < 2 ^ 128) :
+    C01G.Rfc4291 (intToStr6 be d v) v :=
+  (strict6_iff be _ v).mp (text6_parse be d v hv)
 
 /-- **Strict IPv6, necessary conditions** (the "only standard strings" direction, in part): a
     string accepted by `inet_pton(AF_INET6, ·)` of either back end splits at ':' into pieces each
